@@ -96,6 +96,13 @@ CHECKS.update({
    note="Found three restart defects, repaired in /repo (fix: b17f90a, 3fea99b, 17b4d33); stop instants are transaction commits; goroutine interleavings inside one stimulus are the runtime's; anchor-type channels only; anchors not compared.", ref="§4 C13"),
 })
 
+CHECKS.update({
+ "C15": dict(cat="model_checking", engine="seqmc+vsched/vsync",
+   technique="exhaustive breadth-first enumeration of invoice event sequences on the real InvoiceRegistry over the KV and the SQL (sqlite) store in lock-step, plus all preemption-bounded interleavings of two links and the set-timeout transaction under a cooperative scheduler (sync-import shim), each step judged by a reference oracle written from the property statement",
+   text="HTLCs over an amount x declared-total x address x expiry lattice, exact replays, cancel, hold-settle with right/wrong preimage, set timeout and height events are enumerated to depth 4 (thorough 4-6) per invoice kind (regular, hold, zero-amount, AMP, keysend, blinded-path, spontaneous AMP); every settle order is checked against the settlement conjunction, states must be monotone, AmtPaid exact, replays verdict-stable, KV == SQL.",
+   note="No synctest bubble: a virtual clock implementation drives the registry deterministically; invoice expiry watcher and HTLC interceptor outside the universe; sqlite only; two genuine findings repaired in /repo (fix: 0e60830, a97d82f).", ref="§4 C15"),
+})
+
 NOT_YET = "harness not built yet in this round (planned, see DESIGN.md §4)"
 
 def main():
